@@ -250,8 +250,8 @@ def check(P, R):
              f'uses self.{bad[0].attr}', nontrivial=False)
     # BaseResponse.__new__ gives each response object its own HeaderDict
     nw = P.func(f'{RS}:BaseResponse.__new__')
-    ok = any(isinstance(st, ast.Assign) and any(dotted(t) == 'self.headers' for t in st.targets) and isinstance(st.value, ast.Call)
-             and dotted(st.value.func) == 'HeaderDict' for st in walk_shallow(nw.node))
+    ok = any(isinstance(st, ast.Assign) and any(isinstance(t, ast.Attribute) and t.attr == 'headers' and isinstance(t.value, ast.Name) for t in st.targets)
+             and isinstance(st.value, ast.Call) and dotted(st.value.func) == 'HeaderDict' for st in walk_shallow(nw.node))
     R.ob('C08.b', nw, nw.node, ok, text='self.headers = HeaderDict() per object', detail='' if ok else 'response objects share one HeaderDict')
 
     # ---- c
